@@ -95,8 +95,17 @@ func main() {
 				els = append(els, genEmuLink(eb.ForkN("el", i), i))
 			}
 		}
-		scs = canonical()
+		scs = append(canonical(), canonicalManyLoad()...)
+		if os.Getenv("C14_ONLY_MANYLOAD") != "" { // development aid
+			scs, els = canonicalManyLoad(), nil
+		}
 		if os.Getenv("C14_ONLY_CANONICAL") == "" {
+			mb := c.Rand("manyload")
+			for i, n := 0, c.N(40, 1200); i < n; i++ {
+				scs = append(scs, genManyLoad(mb.ForkN("ml", i), i))
+			}
+		}
+		if os.Getenv("C14_ONLY_CANONICAL") == "" && os.Getenv("C14_ONLY_MANYLOAD") == "" {
 			n := c.N(150, 5000)
 			base := c.Rand("scenarios")
 			for i := 0; i < n; i++ {
@@ -140,6 +149,7 @@ func main() {
 			"the compute unit's memory ports deliver responses in request order (fake memories are FIFO, or reorder behind the real reorder buffer as in the shipped shader array)",
 			"memory accesses take effect when the fake memory takes the request from its port; virtual = physical",
 			"lgkmcnt is judged against scalar-memory and LDS instructions only (FLAT instructions are not counted towards it)",
+			"the requested counts of an s_waitcnt are the field values the harness itself encoded (SIMM16: vmcnt [3:0] and, with CDNA3 decoding, [15:14]; lgkmcnt [11:8]); the all-ones value of a field (vmcnt 15 on GCN3, 63 with CDNA3 decoding; lgkmcnt 15) requests no wait and imposes no bound; vector memory responses return in request order, so vmcnt(n) guarantees all but the newest n loads",
 			"resource offsets are computed by a re-implementation of the command processor's first-fit pool (the pool is an internal package)",
 			"expected values come from a host model of the generated programs (barrier phase = all live wavefronts write, then all read); emulation is compared against the same model",
 			"emu-link layer: 'last wavefront ended' = the emulation CU's instruction hook has reported s_endpgm for every wavefront of the group; 'results in memory' = the group's slice of B in the shared mem.Storage equals the host model at the moment the WGCompletionMsg is pushed into the CU's port; stall windows end within 300 cycles of the Send they make fail (the emulation CU retries every cycle)",
@@ -161,7 +171,13 @@ func main() {
 			"early_exit_cases":                      8,
 			"early_exit_cases_completed":            3,
 			"output_words_compared":                 10000,
-			"e2e_runs_compared":                     4,
+			"e2e_runs_compared":                     8,
+			// wait counts with many loads in flight, per architecture
+			"waitcnt_issued_with_more_than_15_vector_loads_in_flight_gcn3":        20,
+			"waitcnt_issued_with_more_than_15_vector_loads_in_flight_cdna3":       30,
+			"waitcnt_nonzero_vmcnt_had_to_wait_with_more_than_15_in_flight_gcn3":  15,
+			"waitcnt_nonzero_vmcnt_had_to_wait_with_more_than_15_in_flight_cdna3": 25,
+			"waitcnt_vmcnt_15_to_62_cdna3_had_to_wait":                            12,
 
 			"emu_link_scenarios":                                               30,
 			"emu_link_groups_mapped":                                           250,
